@@ -789,17 +789,17 @@ macro_rules! source_prop {
     };
 }
 
-source_prop!(C07, "C07", Which::C07, 200_000, 4_000_000, 30,
+source_prop!(C07, "C07", Which::C07, 200_000, 12_000_000, 30,
     "NTS associations (AES-SIV-256/512, v4 and v5) under op sequences biased to hostile deliveries (re-encrypted under wrong/own key, authenticator stripped or corrupted, replays, answers to older requests, identifiers only in the unauthenticated part, cookies in the clear, unauthenticated KISS codes incl. NTPv5 flag combinations) interleaved with genuine traffic; oracle = metamorphic twin run: replacing every non-authentic delivery by a no-op must leave the observable trace (actions, requests incl. cookies/placeholders, measurements, usability, observe(), negotiation and poll state) unchanged; non-trivial = at least one non-authentic delivery");
-source_prop!(C08, "C08", Which::C08, 250_000, 5_000_000, 30,
+source_prop!(C08, "C08", Which::C08, 250_000, 11_000_000, 30,
     "plain and NTS associations; deliveries: exact answer, wrong origin, answer to an earlier request, duplicate/replay, late (> 5 s), wrong version, non-server mode, KISS, stratum 17..255; oracle = a measurement is produced only if the datagram satisfies every listed condition (harness ground truth), at most once per request, and carries exactly (send time, T2, T3, receive time); non-trivial = a delivery that must be ignored or a replay");
-source_prop!(C09, "C09", Which::C09, 250_000, 5_000_000, 30,
+source_prop!(C09, "C09", Which::C09, 250_000, 15_000_000, 30,
     "interleavings of RATE/DENY/RSTR/NTSN/unknown kisses (matching or not, authenticated or not, v4 and v5 encodings), normal answers and unanswered polls; oracle = after a valid RATE the next poll is not faster and is lengthened unless the own interval is longer; valid DENY/RSTR demobilises NTS immediately and only marks plain sources; NTSN/unknown kisses: twin run without them is trace-equal; non-trivial = at least one valid RATE/DENY/RSTR");
-source_prop!(C10, "C10", Which::C10, 60_000, 3_000_000, 60,
+source_prop!(C10, "C10", Which::C10, 60_000, 4_200_000, 60,
     "poll limits 0 ≤ min ≤ desired ≤ max ≤ 17, scripted desired poll, RATE kisses, NTPv5 poll requests 0..255, long histories; oracle = every request's poll exponent within [min, max(max, requested)] and the accompanying timer within [1.01, 1.05]·2^poll; non-trivial = ≥3 polls with ≥1 interval change");
-source_prop!(C11, "C11", Which::C11, 250_000, 5_000_000, 60,
+source_prop!(C11, "C11", Which::C11, 250_000, 10_000_000, 60,
     "sequences of timers, usable/unusable answers and denies; oracle = reference model of (8-bit reach register, tries, deny flag): predicts Send vs Reset vs Demobilize at every timer, no send after a reset, usable answers produce measurements, and the reported missed-poll count = polls since the last usable answer (max 8); non-trivial = a predicted reset/demobilise or ≥9 polls");
-source_prop!(C12, "C12", Which::C12, 300_000, 6_000_000, 40,
+source_prop!(C12, "C12", Which::C12, 300_000, 12_000_000, 40,
     "plain associations in v4 / v5 / automatic mode and NTS associations with either negotiated version; answers matching or not × version 3/4/5 × upgrade marker × kiss; missed polls; one case in four is a negotiation run (automatic mode: 0..=12 polls answered without the marker / unanswered / answered with RATE, then 1..3 answers with the marker, then arbitrary traffic); oracle = reference negotiation machine written from the statement: version (and upgrade marker) of every request, answers of an unexpected version never accepted, implementation state agrees with the reference machine; non-trivial = automatic mode reaching a decision (upgrade, give-up or fallback)");
-source_prop!(C13, "C13", Which::C13, 250_000, 5_000_000, 40,
+source_prop!(C13, "C13", Which::C13, 250_000, 13_000_000, 40,
     "NTS associations with initial stashes of 1..8 cookies of assorted sizes and answers delivering 0..11 cookies; oracle = FIFO model (capacity 8, newest kept): cookie of every request = oldest held, never sent twice, held count = model, requests ask for exactly the missing number unless the code's documented size margin applies (never more); non-trivial = a request with placeholders or an over-full delivery");
